@@ -218,6 +218,9 @@ def run(ctx):
                     ctx.ob("C02.5", "%s|content-changing|%s" % (h.id, short(call_name(t2))), "no content-changing function is applied to head data that is stored in the Request", False, h.loc(b2))
     ctx.ob("C02.5", "head-path|no-normalisation", "nothing on the path from the socket line to the stored Request fields decodes, case-maps, merges or reorders", nbad == 0, cc_read.file)
 
+    # ---- C02.7 values containing colons: the line is split at the first colon only
+    shared.header_split_rule(ctx, "C02.7")
+
     # ---- C02.6 peer address
     pa = facts.fn("connection::Connection::peer_addr")
     ctx.touch(pa)
